@@ -154,6 +154,7 @@ func runCase(c *Case) {
 		bs[i] = build(a)
 		all[a.Name] = bs[i].indexes
 	}
+	var extra []Run
 	for i := range c.Runs {
 		r := &c.Runs[i]
 		var aa map[string][]apk.NamedIndex
@@ -161,6 +162,23 @@ func runCase(c *Case) {
 			aa = all
 		}
 		o := resolveOnce(bs[r.Arch], r.World, aa)
+		// universes with install_if packages: the same resolution again, several
+		// times (fresh resolver clone each time). The model is a function, so every
+		// answer must be the model's; an answer that differs from the first one is
+		// recorded as a run of its own (Coq then reports it against the model) and
+		// reported here as well. This is what catches a return to map order.
+		if hasInstallIf(c.Archs[r.Arch]) {
+			for k := 0; k < iifRepeats; k++ {
+				o2 := resolveOnce(bs[r.Arch], r.World, aa)
+				repeatsTotal++
+				if o2.ok != o.ok || fmt.Sprint(o2.pids) != fmt.Sprint(o.pids) {
+					implViolations++
+					fmt.Printf("IMPL-VIOLATION tag=resolution-not-repeatable {\"world\":%q,\"first\":%s,\"again\":%s,\"archs\":%s}\n", r.World, jsonOf(o.pids), jsonOf(o2.pids), jsonOf(c.Archs))
+					extra = append(extra, Run{Arch: r.Arch, World: r.World, Multi: r.Multi, ObsOK: o2.ok, Obs: o2.pids, ObsErr: firstLine(o2.err)})
+					break
+				}
+			}
+		}
 		report := func(o outcome, what string) {
 			if o.panic != "" || o.timed {
 				tag := "resolver-panics"
@@ -193,6 +211,22 @@ func runCase(c *Case) {
 			}
 		}
 	}
+	c.Runs = append(c.Runs, extra...)
+}
+
+const iifRepeats = 4
+
+var repeatsTotal int
+
+func hasInstallIf(a Arch) bool {
+	for _, ix := range a.Indexes {
+		for _, p := range ix.Pkgs {
+			if len(p.InstallIf) > 0 {
+				return true
+			}
+		}
+	}
+	return false
 }
 
 func firstLine(s string) string {
@@ -366,7 +400,7 @@ var runsTotal, runsOK int
 var filterMadeError, filterChangedChoice, filterNoEffect int
 
 func stat(w *gal.Writer) {
-	fmt.Printf("STAT {\"resolutions\":%d,\"resolutions_ok\":%d,\"panics_or_timeouts\":%d,\"cross_arch_filter_turned_success_into_error\":%d,\"cross_arch_filter_changed_the_install_list\":%d,\"cross_arch_filter_no_effect\":%d}\n", runsTotal, runsOK, implViolations, filterMadeError, filterChangedChoice, filterNoEffect)
+	fmt.Printf("STAT {\"resolutions\":%d,\"repeated_resolutions_of_install_if_universes\":%d,\"resolutions_ok\":%d,\"panics_or_timeouts\":%d,\"cross_arch_filter_turned_success_into_error\":%d,\"cross_arch_filter_changed_the_install_list\":%d,\"cross_arch_filter_no_effect\":%d}\n", runsTotal, repeatsTotal, runsOK, implViolations, filterMadeError, filterChangedChoice, filterNoEffect)
 }
 
 func jsonOf(v any) string {
